@@ -24,6 +24,7 @@ type c04Case struct {
 	Rows   []Row    `json:"rows"`
 	Shape  string   `json:"key_shape"`
 	Types  []string `json:"col_types"`
+	Out    []string `json:"output_names"` // name under which each group column is selected (alias or the column itself)
 }
 
 func genC04(ref core.CaseRef, r *rand.Rand) *c04Case {
@@ -38,7 +39,13 @@ func genC04(ref core.CaseRef, r *rand.Rand) *c04Case {
 	doms := make([][]any, ncols)
 	var all []any
 	for i := range doms {
-		switch r.Intn(5) {
+		switch r.Intn(6) {
+		case 5:
+			// 64-bit identifiers beyond 2^53 (neighbours collapse when squeezed through float64)
+			c.Types = append(c.Types, "bigint")
+			for _, v := range []int64{9007199254740992, 9007199254740993, 9007199254740994, -9007199254740993, 1234567890123456789, 1234567890123456788}[:2+r.Intn(5)] {
+				doms[i] = append(doms[i], v)
+			}
 		case 0:
 			c.Types = append(c.Types, "int")
 			for _, v := range []int{1, 2, 10, -1, 0}[:2+r.Intn(3)] {
@@ -103,9 +110,18 @@ func genC04(ref core.CaseRef, r *rand.Rand) *c04Case {
 	}
 	sel := append([]string{}, c.Cols...)
 	gb := append([]string{}, c.Cols...)
+	c.Out = append([]string{}, c.Cols...)
 	if c.FnKey {
 		sel[0] = "upper(k1) AS k1"
 		gb[0] = "upper(k1)"
+	} else if r.Intn(3) == 0 {
+		// some group columns selected under an alias, in any mix with un-aliased ones
+		for j := range c.Cols {
+			if r.Intn(2) == 0 {
+				c.Out[j] = "g_" + c.Cols[j]
+				sel[j] = c.Cols[j] + " AS " + c.Out[j]
+			}
+		}
 	}
 	sel = append(sel, "count(*) AS c", "collect(id) AS ids")
 	switch c.Window {
@@ -199,7 +215,15 @@ func execC04(ctx *core.Ctx, c *c04Case) {
 				viol("groupby.undecodable_result", core.J(out))
 				return
 			}
-			k := tuple(out, c.Cols)
+			k := tuple(out, c.Out)
+			for j, name := range c.Out {
+				if _, has := out[name]; !has && name != c.Cols[j] {
+					if _, raw := out[c.Cols[j]]; raw {
+						viol("groupby.tuple_not_under_selected_name", fmt.Sprintf("group column %s was selected AS %s but the result row carries it as %s: %s", c.Cols[j], name, c.Cols[j], core.J(out)))
+						return
+					}
+				}
+			}
 			if tuplesInBatch[k] {
 				viol("groupby.equal_values_split", fmt.Sprintf("delivery %d holds two result rows for the key tuple %q: %s", d.Index, k, core.J(d.Rows)))
 				return
